@@ -10,7 +10,8 @@ Vec(sc) == LET f == Final(InitSt(sc)) IN
   [ sc |-> sc, declared |-> DeclSize(sc),
     expect |-> [ werr |-> f.werr, panicked |-> f.panicked, framed |-> f.framed,
                  delivered |-> f.delivered, closeAfterWrite |-> f.closeAfterWrite,
-                 closeFinal |-> f.closeCount, cweFinal |-> f.cweCount, cweErr |-> f.cweErr ] ]
+                 closeFinal |-> f.closeCount, cweFinal |-> f.cweCount, cweErr |-> f.cweErr,
+                 cerrW |-> f.cerrW, doOK |-> f.doOK, attempts |-> f.attempts ] ]
 
 ASSUME ndJsonSerialize("vectors.ndjson", SetToSeq({ Vec(sc) : sc \in ScenarioSpace(MaxL) }))
 =============================================================================
